@@ -41,20 +41,22 @@ Theorem C18_semantics_fields : forall name ops l m rec,
 Proof. exact semantics_fields. Qed.
 Print Assumptions C18_semantics_fields.
 
-(* for every program (any derivation tree, branching, Handle calls anywhere, any
-   interleaving): every Handle shows what the contract specifies for the derivation
-   sequence of its own handler *)
+(* for every program (any derivation tree, branching, Handle / Logger calls anywhere, the
+   core's enabler changed anywhere, any interleaving): every Handle shows what the contract
+   specifies for the derivation sequence of its own handler under the enabler in force when
+   the record is logged *)
 Theorem C18_programs : forall en name p,
   map observe (run_fixed en name p) = spec_run en name [[]] p.
 Proof. exact program_thm. Qed.
 Print Assumptions C18_programs.
 
 (* deriving never affects parents or siblings: in any program every Handle gives what the
-   same handler gives when derived alone from a fresh root (groups slice in an explicit heap) *)
+   same handler gives when derived alone from a fresh root (groups slice in an explicit heap)
+   on a core that has had the enabler now in force all along (no earlier level matters) *)
 Theorem C18_isolated : forall en name p,
   map observe (run_fixed en name p) =
-  flat_map (fun x => match x with (ops, l, m, rec) => map observe (run_fixed en name (chain ops l m rec)) end)
-           (handled_paths [[]] p).
+  flat_map (fun x : hitem => match x with (en', ops, l, m, rec) => map observe (run_fixed en' name (chain ops l m rec)) end)
+           (handled_paths en [[]] p).
 Proof. exact isolated_thm. Qed.
 Print Assumptions C18_isolated.
 
@@ -63,15 +65,15 @@ Print Assumptions C18_isolated.
    derivation.  It does not depend on the conversion function: it holds before the fix too. *)
 Theorem C18_isolated_entries : forall en name p,
   run_fixed en name p =
-  flat_map (fun x => match x with (ops, l, m, rec) => run_fixed en name (chain ops l m rec) end)
-           (handled_paths [[]] p).
+  flat_map (fun x : hitem => match x with (en', ops, l, m, rec) => run_fixed en' name (chain ops l m rec) end)
+           (handled_paths en [[]] p).
 Proof. exact isolated_raw_fixed. Qed.
 Print Assumptions C18_isolated_entries.
 
 Theorem C18_isolated_entries_orig : forall en name p,
   run_orig en name p =
-  flat_map (fun x => match x with (ops, l, m, rec) => run_orig en name (chain ops l m rec) end)
-           (handled_paths [[]] p).
+  flat_map (fun x : hitem => match x with (en', ops, l, m, rec) => run_orig en' name (chain ops l m rec) end)
+           (handled_paths en [[]] p).
 Proof. exact isolated_raw_orig. Qed.
 Print Assumptions C18_isolated_entries_orig.
 
@@ -98,11 +100,68 @@ Theorem C18_enabled_iff : forall cv en hp h l m rec,
 Proof. exact enabled_thm. Qed.
 Print Assumptions C18_enabled_iff.
 
-Theorem C18_enabled_programs : forall cv wg en name p hp st,
+Theorem C18_enabled_programs : forall cv wg name p en hp st,
   Forall (fun o : out => fst o = match snd o with Some _ => true | None => false end)
          (run cv wg en name hp st p).
 Proof. exact run_enabled. Qed.
 Print Assumptions C18_enabled_programs.
+
+(* ---- the core's level moves while handlers exist (zap.AtomicLevel.SetLevel, a dynamic
+   LevelEnablerFunc): the enabler is state of the core threaded through the program, no
+   handler holds a copy of it ---- *)
+(* a slog.Logger asks Enabled and calls Handle only if so; Handle asks the core again *)
+Theorem C18_logger_gate : forall cv en hp h l m rec,
+  logger_log cv en hp h l m rec = handle cv en hp h l m rec.
+Proof. exact logger_log_handle. Qed.
+Print Assumptions C18_logger_gate.
+
+(* after any history whatsoever the next record -- through Handle or through a Logger, on
+   any handler, derived before or after any level move -- is handled according to the
+   enabler in force now *)
+Theorem C18_level_current : forall en name pre i l m rec,
+  let expect := spec_out (cur_en en pre) name (nth i (paths_after [[]] pre) []) l m rec in
+  map observe (run_fixed en name (pre ++ [CHandle i l m rec])) = map observe (run_fixed en name pre) ++ [expect] /\
+  map observe (run_fixed en name (pre ++ [CLog i l m rec])) = map observe (run_fixed en name pre) ++ [expect].
+Proof. exact level_current. Qed.
+Print Assumptions C18_level_current.
+
+(* handling depends on the CURRENT level only: once the enabler has been set to [e] (and not
+   changed since), Enabled = e (mapped level) and an entry is written iff so, whatever
+   enabler the root handler was built on and whatever moves, in whatever direction, came
+   before; the derivation sequence is that of the program with its level moves erased *)
+Theorem C18_level_current_only : forall en name pre e q i l m rec,
+  no_level_change q = true ->
+  let hist := pre ++ CEnabler e :: q in
+  let expect := spec_out e name (nth i (paths_after [[]] (strip_levels hist)) []) l m rec in
+  (map observe (run_fixed en name (hist ++ [CHandle i l m rec])) = map observe (run_fixed en name hist) ++ [expect] /\
+   map observe (run_fixed en name (hist ++ [CLog i l m rec])) = map observe (run_fixed en name hist) ++ [expect]) /\
+  fst expect = e (convert_slog_level l) /\
+  (snd expect <> None <-> e (convert_slog_level l) = true).
+Proof. exact level_current_only. Qed.
+Print Assumptions C18_level_current_only.
+
+(* this is not a triviality of the model: a handler that caches the core's minimum level at
+   NewHandler time (copied by every derivation) and lets Enabled consult the cache first
+   fails it as soon as the level is lowered ... *)
+Theorem C18_level_snapshot_refuted : ~ follows_level_snapshot.
+Proof. exact snapshot_refuted. Qed.
+Print Assumptions C18_level_snapshot_refuted.
+
+Theorem C18_level_snapshot_witness :
+  map observe (run_snapshot (en_of_mask 8) [] snap_prog) =
+    [(false, Some (0, [], [], [(kg, Node [(kx, Leaf [x31])])])); (false, None)] /\
+  spec_run (en_of_mask 8) [] [[]] snap_prog =
+    [(true, Some (0, [], [], [(kg, Node [(kx, Leaf [x31])])])); (true, Some (0, [], [], [(kg, Node [(kx, Leaf [x31])])]))] /\
+  map observe (run_fixed (en_of_mask 8) [] snap_prog) = spec_run (en_of_mask 8) [] [[]] snap_prog.
+Proof. exact snapshot_witness. Qed.
+Print Assumptions C18_level_snapshot_witness.
+
+(* ... and only then: on a core whose enabler never changes, the snapshot variant and the
+   code are indistinguishable on every program (cases with a fixed enabler cannot tell) *)
+Theorem C18_level_snapshot_needs_a_move : forall en name p,
+  no_level_change p = true -> run_snapshot en name p = run_fixed en name p.
+Proof. exact snapshot_same_at_fixed_level. Qed.
+Print Assumptions C18_level_snapshot_needs_a_move.
 
 (* ---- the code before the fix (documentation of the defects) ---- *)
 (* WithGroup(""): {"":{"x":1}} instead of {"x":1} *)
@@ -172,4 +231,15 @@ Proof. exact alias_prog_fixed. Qed.
 (* a disabled level is not handled *)
 Example C18_example_disabled :
   map observe (run_fixed (en_of_mask 12) [] (chain [] 3 [] [(kx, one)])) = [(false, None)].
+Proof. vm_compute. reflexivity. Qed.
+
+(* built at warn, derived, lowered to debug, raised to error, lowered to info; a handler
+   derived before the moves (1) and one derived after them (2), slog level -4 / 0 / 4 *)
+Example C18_example_level_moves :
+  map (fun o => fst (observe o))
+      (run_fixed (en_of_mask 12) []
+         [CGroup 0 kg; CLog 1 0 [] []; CEnabler (en_of_mask 15); CLog 1 0 [] []; CHandle 1 (-4) [] [];
+          CEnabler (en_of_mask 8); CHandle 1 4 [] []; CEnabler (en_of_mask 14); CAttrs 0 [(kx, one)];
+          CLog 2 0 [] []; CLog 1 0 [] []; CHandle 2 (-4) [] []]) =
+  [false; true; true; false; true; true; false].
 Proof. vm_compute. reflexivity. Qed.
